@@ -36,9 +36,13 @@ RULE = ("cases = (class Data|ClimateData, observable T 1..36 x N 1..8 of "
         "cycle / flag variants count separately); distinct = hash of the "
         "whole case.")
 ASSUMPTIONS = [
-    "window bounds and coordinates are float32-exact (quarter / eighth "
-    "units): the library compares float32 coordinates with the bounds in "
-    "float32, so other bounds would change the *input*, not the selection",
+    "window bounds and coordinates are either float32-exact (quarter / "
+    "eighth units) or decimal (twelfths of a year, tenths of a degree) with "
+    "distinct, equally ordered float32 images; bounds are handed over as "
+    "Python floats. The grid keeps single-precision coordinates, so the "
+    "model compares the float32 images of coordinates and bounds: for these "
+    "values that is the closed-window reading of the caller's numbers (a "
+    "bound equal to a supplied coordinate includes that sample)",
     "a window whose model selection is empty (in time or space) is outside "
     "the domain and is not sent to the library",
     "spatial convention as documented: if lat_min == lat_max or "
@@ -63,22 +67,34 @@ GLOBAL = {k: 0.0 for k in KEYS}
 
 # -------------------------------------------------------------------- model
 
+def _f32(v):
+    return np.asarray(v, dtype=np.float32).astype(np.float64)
+
+
 class Model:
     def __init__(self, obs, time, lat, lon):
         self.obs = np.asarray(obs, dtype=np.float64)
-        self.time = np.asarray(time, dtype=np.float64)
-        self.lat = np.asarray(lat, dtype=np.float64)
-        self.lon = np.asarray(lon, dtype=np.float64)
+        # the grid keeps single-precision coordinates: the model works on
+        # the float32 images of coordinates AND bounds (identity for the
+        # dyadic values; for decimal values the images stay distinct and
+        # ordered, so this is the closed-window reading of the caller's
+        # values: a bound equal to a supplied coordinate includes the sample)
+        self.time = _f32(time)
+        self.lat = _f32(lat)
+        self.lon = _f32(lon)
         self.ti = np.ones(len(self.time), dtype=bool)
         self.si = np.ones(len(self.lat), dtype=bool)
 
     def selection(self, w):
-        if w["time_min"] == w["time_max"]:
+        eq_t = w["time_min"] == w["time_max"]
+        eq_s = w["lat_min"] == w["lat_max"] or w["lon_min"] == w["lon_max"]
+        w = {k: float(np.float32(w[k])) for k in KEYS}
+        if eq_t:
             ti = np.ones(len(self.time), dtype=bool)
         else:
             ti = np.array([w["time_min"] <= t <= w["time_max"]
                            for t in self.time], dtype=bool)
-        if w["lat_min"] == w["lat_max"] or w["lon_min"] == w["lon_max"]:
+        if eq_s:
             si = np.ones(len(self.lat), dtype=bool)
         else:
             si = np.array([(w["lat_min"] <= a <= w["lat_max"])
@@ -234,11 +250,14 @@ def _label_window(rec, w, model):
         rec.label("one_spatial_axis_coincides")
     elif eq_lat:
         rec.label("both_spatial_axes_coincide")
-    on = (w["time_min"] in model.time or w["time_max"] in model.time
-          or w["lat_min"] in model.lat or w["lat_max"] in model.lat
-          or w["lon_min"] in model.lon or w["lon_max"] in model.lon)
+    w32 = {k: float(np.float32(w[k])) for k in KEYS}
+    on = (w32["time_min"] in model.time or w32["time_max"] in model.time
+          or w32["lat_min"] in model.lat or w32["lat_max"] in model.lat
+          or w32["lon_min"] in model.lon or w32["lon_max"] in model.lon)
     if on:
         rec.label("bound_on_sample")
+        if any(w32[k] != w[k] for k in KEYS):
+            rec.label("bound_on_decimal_sample")
     ti, si = model.selection(w)
     if (~ti).any():
         rec.label("removes_time_samples")
@@ -400,6 +419,16 @@ def coords(draw, t_max=36, n_max=8):
                              max_size=n_t))
         tq = list(t0 + np.cumsum(gaps))
     time = [_q(int(v)) for v in tq]
+    if draw(st.integers(0, 3)) == 0 and abs(t0) < 1000:
+        # decimal coordinates (monthly time axis in years, tenths of a
+        # degree): not float32-exact, bounds placed ON such samples must
+        # still select them
+        time = [1950 + int(v) / 12.0 for v in tq]
+        latq = draw(st.lists(st.integers(-900, 900), min_size=n_s,
+                             max_size=n_s))
+        lonq = draw(st.lists(st.integers(-1800, 3600), min_size=n_s,
+                             max_size=n_s))
+        return time, [v / 10.0 for v in latq], [v / 10.0 for v in lonq]
     lattice = draw(st.booleans())
     if lattice:      # few distinct values: duplicates, bounds on many nodes
         latq = draw(st.lists(st.sampled_from([-40, -20, 0, 20, 40, 60]),
